@@ -49,6 +49,8 @@ package bfe_fcgi
 //@   props C55
 //@   nopanic
 //@   requires client != nil
+//@   assume[the_record_writer_is_a_well_formed_buffered_writer] at "w.Write(b[:n])" :: wfW(w.Writer) && 0 <= w.Writer.TotalWrite && w.Writer.TotalWrite <= 4611686018427387904
+//@   note the buffered writer built by newWriter is assumed well formed (fill level inside its buffer, as bfe_bufio keeps it: C22) across the uncontracted Flush / WriteString calls, and its byte counter below 2^62
 
 //@ func newWriter
 //@   props C55
